@@ -335,13 +335,39 @@ fn relations(tier: Tier) -> Vec<Rel> {
             check(v == tw.one(), "psi-coefficient", || format!("coefficient {} times the documented power of (u+1) is {} expected 1", i, show_elem(&tw, &v)))
         }));
     }
+    {
+        // named zero / one constants exported by field modules (typed literals `MontFp!("1")`, `MontFp!("0")`)
+        let units: Vec<(&'static str, Elem, Elem)> = vec![
+            ("bls12_381.FQ_ONE", ark_bls12_381::FQ_ONE.to_o(), <ark_bls12_381::Fq as OracleRepr>::tower().one()),
+            ("bls12_381.FQ_ZERO", ark_bls12_381::FQ_ZERO.to_o(), <ark_bls12_381::Fq as OracleRepr>::tower().zero()),
+            ("test.bls12_381.FQ_ONE", ark_test_curves::bls12_381::FQ_ONE.to_o(), <ark_test_curves::bls12_381::Fq as OracleRepr>::tower().one()),
+            ("test.bls12_381.FQ_ZERO", ark_test_curves::bls12_381::FQ_ZERO.to_o(), <ark_test_curves::bls12_381::Fq as OracleRepr>::tower().zero()),
+            ("test.bls12_381.FQ2_ONE", ark_test_curves::bls12_381::FQ2_ONE.to_o(), <ark_test_curves::bls12_381::Fq2 as OracleRepr>::tower().one()),
+            ("test.bls12_381.FQ2_ZERO", ark_test_curves::bls12_381::FQ2_ZERO.to_o(), <ark_test_curves::bls12_381::Fq2 as OracleRepr>::tower().zero()),
+            ("test.bn384.FQ_ONE", ark_test_curves::bn384_small_two_adicity::FQ_ONE.to_o(), <ark_test_curves::bn384_small_two_adicity::Fq as OracleRepr>::tower().one()),
+            ("test.bn384.FQ_ZERO", ark_test_curves::bn384_small_two_adicity::FQ_ZERO.to_o(), <ark_test_curves::bn384_small_two_adicity::Fq as OracleRepr>::tower().zero()),
+            ("test.bn384.FR_ONE", ark_test_curves::bn384_small_two_adicity::FR_ONE.to_o(), <ark_test_curves::bn384_small_two_adicity::Fr as OracleRepr>::tower().one()),
+            ("test.bn384.FR_ZERO", ark_test_curves::bn384_small_two_adicity::FR_ZERO.to_o(), <ark_test_curves::bn384_small_two_adicity::Fr as OracleRepr>::tower().zero()),
+            ("test.mnt4_753.FR_ONE", ark_test_curves::mnt4_753::FR_ONE.to_o(), <ark_test_curves::mnt4_753::Fr as OracleRepr>::tower().one()),
+            ("test.mnt6_753.FQ_ONE", ark_test_curves::mnt6_753::FQ_ONE.to_o(), <ark_test_curves::mnt6_753::Fq as OracleRepr>::tower().one()),
+            ("test.mnt6_753.FQ_ZERO", ark_test_curves::mnt6_753::FQ_ZERO.to_o(), <ark_test_curves::mnt6_753::Fq as OracleRepr>::tower().zero()),
+        ];
+        let n = units.len();
+        out.push(identities("misc.named_units".into(), n, move |t, o| {
+            let i = t.below(n as u64) as usize;
+            o.nt(true);
+            let (name, got, want) = &units[i];
+            o.show(|| format!("{} = {:?}", name, got));
+            check(got == want, "named-unit", || format!("{} = {:?} expected {:?}", name, got, want))
+        }));
+    }
     out
 }
 
 fn main() {
     vh_core::engine::main(PropSpec {
         id: "C16",
-        rule: "The configurations are enumerated, not generated: every prime field (40 distinct MontConfig types; 28 further paths are re-exports, proved identical by the type checker), extension tower (27 levels), short-Weierstrass (40) and twisted-Edwards (11) curve, GLV (11), SWU/WB (6), Elligator2 (1) and pairing (11 engines) parameter set of the 27 crates under curves/ and of test-curves. One relation per (configuration, identity family). Deterministic identities (one exact-mode case each) are recomputed with num-bigint / schoolbook tower arithmetic from the modulus and NONRESIDUE only; probabilistic identities (r*(h*P)=O on the whole curve, phi(Q)=lambda*Q, isogeny additivity, psi(Q)=[q]Q, mul_by_a/add_b/mul_by_nonresidue helpers, bilinearity) use witnesses decoded from the proptest tape (64 per identity in quick, 512 in thorough, divided by a cost factor for the 753-bit towers) and the harness' own affine group laws and MSB-first double-and-add. A case is non-trivial when its witness is (deterministic identity that is not vacuous for the configuration; random witness that is a non-zero element / non-identity point); distinct = distinct decoded choices.",
+        rule: "The configurations are enumerated, not generated: every prime field (40 distinct MontConfig types; 28 further paths are re-exports, proved identical by the type checker), extension tower (27 levels; for each level also the FftField constants of the extension-field impl: TWO_ADIC_ROOT_OF_UNITY of order exactly 2^TWO_ADICITY, small-subgroup constants all-or-none and LARGE_SUBGROUP_ROOT_OF_UNITY of order exactly 2^s*b^k, get_root_of_unity(n) of order exactly n for every n = 2^i*b^j, decided by oracle exponentiation in the tower), the named zero/one constants exported by field modules, short-Weierstrass (40) and twisted-Edwards (11) curve, GLV (11), SWU/WB (6), Elligator2 (1) and pairing (11 engines) parameter set of the 27 crates under curves/ and of test-curves. One relation per (configuration, identity family). Deterministic identities (one exact-mode case each) are recomputed with num-bigint / schoolbook tower arithmetic from the modulus and NONRESIDUE only; probabilistic identities (r*(h*P)=O on the whole curve, phi(Q)=lambda*Q, isogeny additivity, psi(Q)=[q]Q, mul_by_a/add_b/mul_by_nonresidue helpers, bilinearity) use witnesses decoded from the proptest tape (64 per identity in quick, 512 in thorough, divided by a cost factor for the 753-bit towers) and the harness' own affine group laws and MSB-first double-and-add. A case is non-trivial when its witness is (deterministic identity that is not vacuous for the configuration; random witness that is a non-zero element / non-identity point); distinct = distinct decoded choices.",
         assumptions: &[
             "num-bigint arithmetic and the harness' Miller-Rabin (25 prime bases) are correct",
             "arkworks prime/extension field arithmetic (C01/C02) is used inside the curve oracles (group law, scalar multiplication, isogeny evaluation)",
